@@ -8,7 +8,7 @@ import (
 
 const (
 	tagMaxCount  = 84
-	bufferLength = 1024
+	bufferLength = 128 * 12 // the entries of the largest accepted directory (128 tags of 12 bytes)
 )
 
 // buffer for data and tags
